@@ -10,6 +10,6 @@ CONSTANTS
   MaxGen = 2
   CfgSW = FALSE
   CfgNidl = FALSE
-  CfgSO = FALSE
+  CfgSO = TRUE
 INVARIANTS InvC01
 CHECK_DEADLOCK FALSE
